@@ -302,6 +302,17 @@ def corpus():
                  "body": [two("y"), ("if", [(cmp("x", ">", "y"), [inc("a", c(1))])], None), two("x"),
                           ("if", [(cmp("x", ">", "y"), [inc("b", c(1))]), (cmp("y", ">=", "x"), [inc("b", c(3))])], None)]},
                 [{"b": 1}, {"a": 1, "b": 1}], "alias-reuse-after-lhs-reassigned"))
+    # --- dependent random initial values (initial value of a mixed monomial is not a product)
+    out.append(({"types": [], "init": [("assign", "u", ("draw", ("bern", c(F(1, 2))))), ("assign", "y", P.det(("add", v("u"), c(1)))),
+                                       ("assign", "s", P.det(c(0)))], "guard": ("true",),
+                 "body": [("assign", "s", P.det(("add", v("s"), ("mul", v("u"), v("y"))))),
+                          ("assign", "u", P.det(("sub", c(1), v("u")))), ("assign", "y", P.det(("sub", c(3), v("y"))))]},
+                [{"s": 1}, {"u": 1, "y": 1}], "dependent-random-init"))
+    out.append(({"types": [], "init": [("assign", "u", ("choice", [(c(F(1, 3)), c(0)), (c(F(2, 3)), c(2))])),
+                                       ("assign", "w", P.det(("mul", v("u"), v("u")))), ("assign", "s", P.det(c(1)))], "guard": ("true",),
+                 "body": [("assign", "s", P.det(("add", ("mul", c(F(1, 2)), v("s")), ("mul", v("u"), v("w"))))),
+                          ("simult", [("u", P.det(v("w"))), ("w", P.det(v("u")))])]},
+                [{"s": 1}, {"s": 2}], "dependent-random-init-swap"))
     # README-like random walk with choice
     out.append(({"types": [], "init": [("assign", "x", P.det(c(0))), ("assign", "s", P.det(c(1)))], "guard": ("true",),
                  "body": [("assign", "s", ("choice", [(c(F(1, 2)), c(1)), (c(F(1, 2)), c(-1))])),
